@@ -3,7 +3,6 @@ package udp
 import (
 	"encoding/binary"
 	"errors"
-	"fmt"
 	"io"
 	"time"
 
@@ -12,10 +11,11 @@ import (
 
 // WriteError writes the failure reason as a null-terminated string.
 func WriteError(w io.Writer, txID []byte, err error) {
-	// If the client wasn't at fault, acknowledge it.
+	// If the client wasn't at fault, acknowledge it without revealing any
+	// internal detail.
 	var clientErr bittorrent.ClientError
 	if !errors.As(err, &clientErr) {
-		err = fmt.Errorf("internal error occurred: %w", err)
+		err = errors.New("internal error occurred")
 	}
 
 	buf := newBuffer()
